@@ -45,11 +45,11 @@ type scenario struct {
 	Param2 int
 	Rel    rel
 	// accessor-subject: subject = result of getter Acc on (element of) Param
-	Acc  *types.Var
-	Acc2 *types.Var // second getter for order scenarios on one element
-	Fields   bool   // subject parameter is the []string of '/'-separated fields of the offending ID
-	Consts   string // constant bool arguments of this activation: "2=false,3=true"
-	NonEmpty int    // 1 + index of a list parameter assumed non-empty (0 = none)
+	Acc        *types.Var
+	Acc2       *types.Var    // second getter for order scenarios on one element
+	Fields     bool          // subject parameter is the []string of '/'-separated fields of the offending ID
+	Consts     string        // constant bool arguments of this activation: "2=false,3=true"
+	NonEmpty   int           // 1 + index of a list parameter assumed non-empty (0 = none)
 	NonEmptyFn *ssa.Function // the list returned (result 0) by this function is non-empty on success
 }
 
@@ -123,14 +123,14 @@ func (e *scEngine) isFailureReturn(f *ssa.Function, r *ssa.Return) bool {
 }
 
 type simCtx struct {
-	e    *scEngine
-	f    *ssa.Function
-	sc   scenario
-	loop *sliceRange // for Elem subjects: the loop whose element is the subject
-	depth int
-	phiBusy map[*ssa.Phi]bool
+	e          *scEngine
+	f          *ssa.Function
+	sc         scenario
+	loop       *sliceRange // for Elem subjects: the loop whose element is the subject
+	depth      int
+	phiBusy    map[*ssa.Phi]bool
 	lookupBusy bool
-	litLoop *sliceRange // loop over a list literal that contains the subject: its element stands for the subject
+	litLoop    *sliceRange             // loop over a list literal that contains the subject: its element stands for the subject
 	boolParams map[*ssa.Parameter]bool // bool parameters whose value is a constant at the call site
 }
 
